@@ -71,12 +71,11 @@ pub fn c13_oligo_ascii<const K: usize, const N: usize, const MASK: u32>(rank: &[
     core::mem::forget(core);
 }
 
-/// fixed non-ASCII strings: multi-byte characters must act as ambiguous bytes
-pub fn c13_oligo_unicode<const K: usize>(rank: &[usize], inv: &[u64], kcount: usize) {
-    let which = any_u8();
-    assume(which < 4);
+/// fixed non-ASCII strings (WHICH selects one; concrete so that allocation sizes are
+/// concrete): multi-byte characters must act as ambiguous bytes
+pub fn c13_oligo_unicode<const K: usize, const WHICH: usize>(rank: &[usize], inv: &[u64], kcount: usize) {
     let norm = any_bool();
-    let s: &str = match which {
+    let s: &str = match WHICH {
         0 => "AC\u{e9}GT",
         1 => "\u{20ac}ACGTA",
         2 => "AC\u{10348}CGT",
@@ -92,7 +91,7 @@ pub fn c13_oligo_unicode<const K: usize>(rank: &[usize], inv: &[u64], kcount: us
     if p < v_py.len() && p < v_core.len() {
         check!(v_py[p].to_bits() == v_core[p].to_bits(), "C13: Python oligo vector differs from the core composition row");
     }
-    // oracle for the non-ASCII clause: bytes >= 0x80 are ambiguous, so no window crosses them
+    cover!(p < v_py.len() && v_py[p] > 0.0, "req: non-zero entry compared");
     cover!(true, "req: end of harness reached");
     core::mem::forget(v_py);
     core::mem::forget(v_core);
@@ -100,18 +99,31 @@ pub fn c13_oligo_unicode<const K: usize>(rank: &[usize], inv: &[u64], kcount: us
     core::mem::forget(core);
 }
 
-/// header of the binding = header of the core = names of the index-to-k-mer table
+/// header of the binding = names of the index-to-k-mer table as the core renders them
+/// (numeric_to_kmer), for every column (concrete walk, byte-wise comparison)
 pub fn c13_header<const K: usize>(rank: &[usize], inv: &[u64], kcount: usize) {
     let py = mk_py(K, rank, inv, kcount);
     let h = py.get_header();
     check!(h.len() == kcount, "C13: Python header length differs from the column count");
-    let p = any_usize();
-    assume(p < kcount);
-    if p < h.len() {
-        let want = numeric_to_kmer(inv[p], K);
-        check!(h[p].as_bytes() == want.as_bytes(), "C13: Python header differs from the core header");
-        core::mem::forget(want);
+    let mut p = 0;
+    while p < kcount {
+        if p < h.len() {
+            let want = numeric_to_kmer(inv[p], K);
+            let a = h[p].as_bytes();
+            let b = want.as_bytes();
+            check!(a.len() == b.len(), "C13: Python header differs from the core header");
+            let mut j = 0;
+            while j < K {
+                if j < a.len() && j < b.len() {
+                    check!(a[j] == b[j], "C13: Python header differs from the core header");
+                }
+                j += 1;
+            }
+            core::mem::forget(want);
+        }
+        p += 1;
     }
+    cover!(kcount >= 2, "req: two or more columns");
     cover!(true, "req: end of harness reached");
     core::mem::forget(h);
     core::mem::forget(py);
